@@ -41,7 +41,7 @@ SPEC = {
     "assumptions": [
         "latency awareness is not modelled and never enabled",
         "liveness is a snapshot: no node changes state between pick() and fallback()",
-        "model theorems assume no token twice on the ring and one entry per datacenter in every NTS map",
+        "model theorems assume a sorted ring (TokenRing::new) and one entry per datacenter in every NTS map; tokens may repeat",
         "shuffles, rotation indices and the choose index are oracles; shuffling on/off only selects the seed",
     ],
     "extra_coverage": _extra,
